@@ -714,6 +714,23 @@ def parse_lifetimes():
     return facts
 
 
+# ------------------------------------------------------------------ bpm comparator (C01)
+
+def parse_bpm_facts():
+    facts = []
+    nb = norm(strip_comments(read("src/model/beatmap/bpm.rs")))
+    facts.append((
+        "bpm: the winner is chosen by max_by with the total order (duration by total_cmp, then first appearance)",
+        re.search(r"\.max_by\(\|\(_, \(idx_a, a\)\), \(_, \(idx_b, b\)\)\| a\.total_cmp\(b\)\.then_with\(\|\| idx_b\.cmp\(idx_a\)\)\)", nb) is not None))
+    facts.append((
+        "bpm: one HashMap, keyed by the beat length's bits, holding (first index, accumulated duration)",
+        len(re.findall(r"\bHashMap\b", nb)) == 3 and "map: HashMap<u64, (usize, f64)>" in nb))
+    facts.append((
+        "bpm: no other ordering / comparison of durations (partial_cmp, epsilon, sort) in the file",
+        re.search(r"partial_cmp|EPSILON|\.sort|max_by_key|min_by|\.abs\(\)", nb) is None and len(re.findall(r"max_by", nb)) == 1))
+    return [f"({coq_str(n)}, {'true' if ok else 'false'})" for n, ok in facts]
+
+
 # ------------------------------------------------------------------ emit
 
 def generate():
@@ -725,6 +742,7 @@ def generate():
     dpay, ppay, routes, perf_arms, diff_arms, map_arms, calc = parse_attrs_path()
     effects, unsafes, features = parse_effects()
     lifetimes = parse_lifetimes()
+    bpm_facts = parse_bpm_facts()
     L = []
     A = L.append
     A("(* GENERATED by tools/extract.py from the repository's current source - do not edit.")
@@ -789,6 +807,8 @@ def generate():
     A("Definition effect_sites : list (string * string * Z) :=\n  " + coq_list(effects).replace("; (", ";\n   (") + ".")
     A("Definition unsafe_sites : list (string * Z) :=\n  " + coq_list(unsafes).replace("; (", ";\n   (") + ".")
     A("Definition feature_sites : list (string * string) :=\n  " + coq_list(features).replace("; (", ";\n   (") + ".")
+    A("(* the comparator of Beatmap::bpm that Model/Bpm.v transcribes *)")
+    A("Definition bpm_facts : list (string * bool) :=\n  " + coq_list(bpm_facts).replace("; (", ";\n   (") + ".")
     A("(* facts the ownership argument of C11 rests on, each checked against the current source *)")
     A("Definition lifetime_facts : list (string * bool) :=\n  " + coq_list(lifetimes).replace("; (", ";\n   (") + ".")
     return "\n".join(L) + "\n"
